@@ -192,11 +192,15 @@ func (v *Vue) loadCachedWithFrontMatter(filename string) (map[string]any, []*htm
 	// Cache miss or file changed - reload
 	frontMatter, templateBytes, err := v.loader.loadFragment(filename)
 	if err != nil {
+		// Do not keep the previous version around: if the file later reappears with the
+		// old modification time, the stale entry would be served again.
+		v.evictTemplate(filename)
 		return nil, nil, err
 	}
 
 	dom, err := parser.ParseTemplateBytes(templateBytes)
 	if err != nil {
+		v.evictTemplate(filename)
 		return nil, nil, err
 	}
 
@@ -209,6 +213,13 @@ func (v *Vue) loadCachedWithFrontMatter(filename string) (map[string]any, []*htm
 	v.templateMu.Unlock()
 
 	return frontMatter, dom, nil
+}
+
+// evictTemplate removes filename from the template cache, if present.
+func (v *Vue) evictTemplate(filename string) {
+	v.templateMu.Lock()
+	delete(v.templateCache, filename)
+	v.templateMu.Unlock()
 }
 
 // assignSeenAttrs recursively assigns unique IDs to all v-once elements in the tree
